@@ -329,3 +329,154 @@ pub fn run(ty: &str, seed: u64) -> String {
         _ => "bad-case".into(),
     }
 }
+
+
+// ------------------------------------------------------------------------------------ representations / attributes
+// (outside the letter of the statement: tagged / untagged enums, flatten, renames, 128-bit integers,
+// `Option<Option<T>>`, `serde_json::Value`, `Cow`; run for information and as extra oracle where the
+// serde data model can carry the distinction)
+use std::borrow::Cow;
+
+#[derive(Serialize, Deserialize, PartialEq, Debug, Clone)]
+#[serde(tag = "type")]
+pub enum Internal {
+    A { x: u8 },
+    B { s: String, o: Option<i8> },
+    C,
+    #[serde(rename = "dee")]
+    D(Point),
+}
+#[derive(Serialize, Deserialize, PartialEq, Debug, Clone)]
+#[serde(tag = "t", content = "c")]
+pub enum Adjacent {
+    A(u8),
+    B { x: i16 },
+    C,
+    D(u8, String),
+    E(Vec<Option<char>>),
+}
+#[derive(Serialize, Deserialize, PartialEq, Debug, Clone)]
+#[serde(untagged)]
+pub enum Untagged {
+    N(i64),
+    S(String),
+    L(Vec<u8>),
+    M { a: bool },
+    P(u8, String),
+}
+#[derive(Serialize, Deserialize, PartialEq, Debug, Clone)]
+pub struct Flat {
+    id: u8,
+    #[serde(flatten)]
+    p: Point,
+    #[serde(flatten)]
+    extra: BTreeMap<String, i32>,
+}
+#[derive(Serialize, Deserialize, PartialEq, Debug, Clone)]
+#[serde(rename_all = "camelCase")]
+pub struct Renamed {
+    #[serde(rename = "type")]
+    ty: String,
+    some_field: u16,
+    #[serde(default)]
+    with_default: Option<u8>,
+    #[serde(skip_serializing_if = "Option::is_none")]
+    skipped: Option<String>,
+}
+#[derive(Serialize, Deserialize, PartialEq, Debug, Clone)]
+pub struct OptOpt {
+    a: Option<Option<u8>>,
+    b: Option<()>,
+    c: Option<UnitS>,
+}
+#[derive(Serialize, Deserialize, PartialEq, Debug, Clone)]
+pub struct N3(u32);
+#[derive(Serialize, Deserialize, PartialEq, Debug, Clone)]
+pub struct N2(N3);
+#[derive(Serialize, Deserialize, PartialEq, Debug, Clone)]
+pub struct N1(N2, UnitS, (), Option<N2>);
+#[derive(Serialize, Deserialize, PartialEq, Debug, Clone)]
+pub struct Wide {
+    a: i128,
+    b: u128,
+}
+#[derive(Serialize, Deserialize, PartialEq, Debug, Clone)]
+pub struct Cows<'a> {
+    s: Cow<'a, str>,
+    c: char,
+    t: (u8, (char, Cow<'a, str>)),
+    o: Option<Cow<'a, str>>,
+}
+
+fn gjson(r: &mut Rng, depth: u32) -> serde_json::Value {
+    use serde_json::Value as J;
+    match r.below(if depth == 0 { 6 } else { 8 }) {
+        0 => J::Null,
+        1 => J::Bool(r.chance(1, 2)),
+        2 => J::from(gi64(r)),
+        3 => J::from(gu64(r)),
+        4 => J::from(*r.pick(&[0.5f64, -1.25, 1e300, 3.0, 1e-7])),
+        5 => J::String(gs(r)),
+        6 => J::Array((0..r.below(3)).map(|_| gjson(r, depth - 1)).collect()),
+        _ => J::Object((0..r.below(3)).map(|_| (gs(r), gjson(r, depth - 1))).collect()),
+    }
+}
+
+pub const TYPES_X: &[&str] = &["Internal", "Adjacent", "Untagged", "Flat", "Renamed", "OptOpt", "Newtypes", "Wide", "Cows", "Json", "SerdeArg"];
+
+pub fn run_x(ty: &str, seed: u64) -> String {
+    let r = &mut Rng::new(seed);
+    match ty {
+        "Internal" => rt(&match r.below(4) {
+            0 => Internal::A { x: gu8(r) },
+            1 => Internal::B { s: gs(r), o: gopt(r, gi8) },
+            2 => Internal::C,
+            _ => Internal::D(gpoint(r)),
+        }),
+        "Adjacent" => rt(&match r.below(5) {
+            0 => Adjacent::A(gu8(r)),
+            1 => Adjacent::B { x: gi16(r) },
+            2 => Adjacent::C,
+            3 => Adjacent::D(gu8(r), gs(r)),
+            _ => Adjacent::E(gvec(r, |r| gopt(r, gc))),
+        }),
+        "Untagged" => rt(&match r.below(5) {
+            0 => Untagged::N(gi64(r)),
+            1 => Untagged::S(gs(r)),
+            2 => Untagged::L(gvec(r, gu8)),
+            3 => Untagged::M { a: r.chance(1, 2) },
+            _ => Untagged::P(gu8(r), gs(r)),
+        }),
+        "Flat" => {
+            let mut extra = gmap(r, gs, gi32);
+            for k in ["id", "x", "y", "label"] {
+                extra.remove(k);
+            }
+            rt(&Flat { id: gu8(r), p: gpoint(r), extra })
+        }
+        "Renamed" => rt(&Renamed { ty: gs(r), some_field: gu16(r), with_default: gopt(r, gu8), skipped: gopt(r, gs) }),
+        "OptOpt" => rt(&OptOpt { a: gopt(r, |r| gopt(r, gu8)), b: gopt(r, |_| ()), c: gopt(r, |_| UnitS) }),
+        "Newtypes" => rt(&N1(N2(N3(gu32(r))), UnitS, (), gopt(r, |r| N2(N3(gu32(r)))))),
+        "Wide" => rt(&Wide { a: (gi64(r) as i128) << r.below(64), b: (gu64(r) as u128) << r.below(64) }),
+        "Cows" => rt(&Cows { s: Cow::Owned(gs(r)), c: gc(r), t: (gu8(r), (gc(r), Cow::Owned(gs(r)))), o: gopt(r, |r| Cow::Owned(gs(r))) }),
+        "Json" => rt(&gjson(r, 3)),
+        "SerdeArg" => {
+            // `Serde<T>` as a function argument (deserialises the template value into T)
+            let p = gpoint(r);
+            let mut env = minijinja::Environment::new();
+            env.add_function("echo", |p: Serde<Point>| Value::from(Serde(p.0)));
+            let res = mjh::guarded(|| {
+                let v = Value::from(Serde(&p));
+                let out = env.compile_expression("echo(p)").and_then(|e| e.eval(minijinja::context! { p => v }))?;
+                Point::deserialize(out)
+            });
+            match res {
+                Ok(Ok(q)) if q == p => "ok".into(),
+                Ok(Ok(q)) => format!("ne:got {:?} from {:?}", q, p),
+                Ok(Err(e)) => format!("err:{e}"),
+                Err(m) => format!("panic:{m}"),
+            }
+        }
+        _ => "bad-case".into(),
+    }
+}
